@@ -79,9 +79,18 @@ class C01(Prop):
                 v = cls(s)
                 got = v.is_valid(x)
                 errs = list(cls(s).iter_errors(x))
+            except (impl.exceptions.UnknownType, impl.exceptions.RefResolutionError) as e:
+                res.excluded = "documented-exception:" + impl.tname(e)
+                continue
+            except RecursionError:
+                res.excluded = "recursion-limit"
+                continue
             except Exception as e:
-                res.excluded = "crash(C03):" + impl.tname(e)
-                res.labels.append("crash-routed-to-C03")
+                # the specification gives this pair a verdict (O-SPEC just computed it in its exact domain);
+                # an exception is no verdict at all
+                res.fail(("no-verdict", impl.tname(e), d, failing or "valid"),
+                         "spec: %s; implementation raised %r; instance=%s" % (
+                             "invalid (keyword %s)" % failing if failing else "valid", e, impl.cj(x)[:300]))
                 continue
             if got != (not errs):
                 res.fail(("is_valid-vs-iter_errors", d), "is_valid=%r errors=%d instance=%s" % (
